@@ -573,7 +573,7 @@ func ruleIDHoist(c *Ctx) []Obligation {
 // ---------------------------------------------------------------- ID.VALRESET
 
 func init() {
-	register(&Rule{Name: "ID.VALRESET", Props: []string{"C18", "C11"}, Floor: 2,
+	register(&Rule{Name: "ID.VALRESET", Props: []string{"C18", "C11"}, Floor: 1,
 		Doc: "every identity filed in the dictionary starts the run with an empty value list: the filing site clears Identity.Values of the identity it files",
 		Run: ruleIDValReset})
 }
@@ -590,7 +590,7 @@ func ruleIDValReset(c *Ctx) []Obligation {
 	fValues := FieldVar(idT, "Values")
 	var obs []Obligation
 	n := 0
-	eachInstr(fn, func(in ssa.Instruction) {
+	c.eachInstrDeep(fn, func(in ssa.Instruction) {
 		mu, isMU := in.(*ssa.MapUpdate)
 		if !isMU {
 			return
@@ -621,7 +621,7 @@ func ruleIDValReset(c *Ctx) []Obligation {
 			return
 		}
 		cleared := false
-		for _, st := range storesToField(fn, fValues) {
+		for _, st := range c.storesToFieldDeep(fn, fValues) {
 			if !isNilConst(st.Val) {
 				continue
 			}
